@@ -91,15 +91,25 @@ failing = st.one_of(
     trees(extra_calls=('BOOM', 'XBOOM', 'INNERFAIL')),
     valid.map(lambda s: s[:max(1, len(s) // 2)]),
 )
-rebinding = st.one_of(st.tuples(st.just('$set'), st.sampled_from(['v_a', 'v_s', 'v_l', 'v_new']), st.one_of(st.integers(-9, 99), st.sampled_from(['other', 2.5, None]), st.lists(st.integers(0, 9), min_size=1, max_size=4))).map(list),
+other_reg = st.tuples(st.just('$other'), st.sampled_from(['ID', 'EXTRA', 'SUM', 'INNEROK', 'v_a', 'v_other']), st.integers(0, 9)).map(list)
+rebinding = st.one_of(other_reg, st.tuples(st.just('$set'), st.sampled_from(['v_a', 'v_s', 'v_l', 'v_new']), st.one_of(st.integers(-9, 99), st.sampled_from(['other', 2.5, None]), st.lists(st.integers(0, 9), min_size=1, max_size=4))).map(list),
                       st.tuples(st.just('$cell'), st.sampled_from(['B2', 'C3', 'D4', 'E5']), st.one_of(st.integers(-9, 99), st.sampled_from(['changed', 0, None]))).map(list))
 history_case = st.fixed_dictionaries({'debug': st.booleans(), 'history': st.lists(st.one_of(failing, failing, valid, rebinding), min_size=1, max_size=12),
-                                      'probes': st.lists(st.one_of(valid, valid, failing), min_size=1, max_size=3)})
+                                      'probes': st.lists(st.one_of(valid, valid, failing, st.sampled_from(['EXTRA(1)', 'ID(2)+SUM(1,2)', 'v_other', 'v_a+1', 'INNEROK(1)'])), min_size=1, max_size=3)})
 
 
-def apply_binding(P, cells, h):
+def apply_binding(P, cells, h, others=None):
     if h[0] == '$set':
         P.set_variable(h[1], h[2])
+    elif h[0] == '$other':
+        # a registration made on a *different* parser object: must not matter to P (the fresh reference never sees it)
+        if others is not None:
+            Q = others.setdefault('Q', hot().Parser())
+            if h[1].startswith('v_'):
+                Q.set_variable(h[1], 7000 + h[2])
+            else:
+                Q.set_function(h[1], lambda *a, k=h[2]: 7000 + k)
+            Q.parse('%s(1)' % h[1] if not h[1].startswith('v_') else h[1])
     else:
         cells[h[1]] = h[2]
 
@@ -116,9 +126,10 @@ def check_history(case):
     for p in case['probes']:
         quiet_parse(P, p)           # the probes are evaluated before the history too (a cache would be primed here)
     applied = []
+    others = {}
     for step, h in enumerate(case['history']):
         if isinstance(h, list):
-            apply_binding(P, cells, h)
+            apply_binding(P, cells, h, others)
             applied.append(h)
             # the reference is a fresh parser that received the same (re)bindings and nothing else
             fcells = dict(CELLS)
@@ -140,6 +151,8 @@ def hist_classes(case):
     hs = ' '.join(h for h in case['history'] if isinstance(h, str))
     if any(isinstance(h, list) for h in case['history']):
         out.append('rebinding')
+    if any(isinstance(h, list) and h[0] == '$other' for h in case['history']):
+        out.append('other-parser-registration')
     if 'BOOM' in hs or 'Z9' in hs:
         out.append('callback-aborted')
     if 'INNERFAIL' in hs:
@@ -292,9 +305,9 @@ def ret_key(case):
 
 LAWS = [
     Law('history_independence', check_history, strategy=history_case, classes=hist_classes, quick=6000, thorough=150000, shards=(16, 16),
-        required=('callback-aborted', 'nested-failure', 'syntax-error', 'error-literal', 'rebinding', 'debug:True', 'debug:False'),
+        required=('callback-aborted', 'nested-failure', 'syntax-error', 'error-literal', 'rebinding', 'other-parser-registration', 'debug:True', 'debug:False'),
         nontrivial=lambda c: 'callback-aborted' in hist_classes(c) or len(c['history']) >= 3,
-        rule='a long-lived parser with fixed bindings evaluates a generated history of 1-12 formulas (valid ones, lexical and syntax errors, run-time errors, error literals, callbacks that raise, callbacks whose own nested parse fails) interleaved with re-bindings of variables and cell values; '
+        rule='a long-lived parser with fixed bindings evaluates a generated history of 1-12 formulas (valid ones, lexical and syntax errors, run-time errors, error literals, callbacks that raise, callbacks whose own nested parse fails) interleaved with re-bindings of variables and cell values and with registrations made on a different parser object; '
              'after every step each of 1-3 probe formulas must give the outcome a fresh parser given the same (re)bindings and no other history gives; the other debug setting must give the same outcomes; non-trivial = a callback-aborted evaluation or at least 3 steps'),
     Law('no_host_mutation', check_mutation, strategy=mut_case(), quick=5000, thorough=100000, shards=(8, 16),
         nontrivial=lambda c: len(c['formulas']) >= 2,
